@@ -15,6 +15,9 @@ CHECKS = {
  "C06": dict(text="Coq theorems (Props/C06.v): the implementation's tree construction and evaluation (Conditional::evaluate / process_nodes) equals, for every line sequence and symbol set, a line-by-line stack machine in which #define/#undef act only in selected regions from that line on (selected lines, final symbols and accept/reject verdict all equal); unbalanced or malformed directives are rejected; the location of a surviving line's first token computed over the original text is (line, indentation+1) regardless of removed lines; per-file symbol sets. The character-level lexer/parser of directives is part of the executable model. Tied to the real preprocessor+parser by bounded-exhaustive line sequences x symbol subsets, grammar-enumerated expressions x valuations, random files and multi-file sets.",
              note="Trusted: Coq kernel, extraction, harness. LALRPOP recovery modelled at accept/reject level. Expression precedence (equal, left-assoc) is the code's; it is pinned by the expression sweep.",
              tech="Coq refinement proof (tree evaluation = stack machine) + bounded-exhaustive differential correspondence", ref="DESIGN.md §7 C06"),
+ "C11": dict(text="Coq theorems (Props/C11.v) for every byte string and every decodable type nested to any depth (induction on the type): decoding is total, a success consumed a non-empty prefix and nothing else, only values of the type are accepted (0/1 bools, valid UTF-8, unique dictionary keys, in-range var-ints), loop iterations are bounded by the input length and reservations by the bytes that remain; same for skip_tagged_fields and the generator-reply decoder. Tied to the real Decoder by exhaustive short inputs for all types, truncations/corruptions of valid encodings and random inputs; every error is rendered; the largest allocation request is observed with a counting allocator.",
+             note="Trusted: Coq kernel, extraction, harness (incl. its counting allocator). Memory safety of unsafe blocks is outside the model. Wall-clock/RSS not measured.",
+             tech="Coq proof (induction on types; totality, prefix, strictness, bounds) + exhaustive short-input correspondence", ref="DESIGN.md §7 C11"),
 }
 NOT_APPLICABLE = {}
 def main():
